@@ -18,7 +18,7 @@ theorem aliveAt_some {net : Net} {k : Nat} (h : net.aliveAt k = true) :
   | some nd => exact ⟨nd, rfl, by simpa [hn] using h⟩
 
 /-- which kind of node sits at index `k` -/
-theorem GInv.kind {input : List Val} {net : Net} (h : GInv input net) {k : Nat} {nd : Node}
+theorem GInv.kind {P : List Val → Prop} {input : List Val} {net : Net} (h : GInv P input net) {k : Nat} {nd : Node}
     (hn : net.nodes[k]? = some nd) :
     (k = 0 ∧ ∃ s, nd = .src s) ∨ (0 < k ∧ k + 1 < net.nodes.length ∧ middleOK nd = true) ∨
     (k + 1 = net.nodes.length ∧ ∃ c s, nd = .sink c s) := by
@@ -46,8 +46,8 @@ theorem sink_step_alive (c : Cfg) (s : SinkSt) (ev : Ev) (ha : s.alive = true) :
   simp [Node.step, Node.alive, ha]
 
 /-- node `i` handles the oldest request / cancel of link `i` -/
-theorem GInv.step_up {input : List Val} {net net' : Net} (h : GInv input net) (i : Nat)
-    (hstep : net.step (.up i) = some net') : GInv input net' := by
+theorem GInv.step_up {P : List Val → Prop} {input : List Val} {net net' : Net} (h : GInv P input net) (i : Nat)
+    (hstep : net.step (.up i) = some net') : GInv P input net' := by
   unfold Net.step at hstep
   cases hl : net.links[i]? with
   | none => simp [hl] at hstep
@@ -88,7 +88,7 @@ theorem GInv.step_up {input : List Val} {net net' : Net} (h : GInv input net) (i
           have := h.cancel i (by rw [hupq, hu]; simp)
           rw [hf.hist]; simp [this]
         have hnext : net'.aliveAt (i + 1) = net.aliveAt (i + 1) := by rw [hf.alive]; simp
-        apply h.of_frame hf hn ha h.posle (fun j _ _ => rfl) hcov.1 hcov.2
+        apply h.of_frame hf hn ha h.posle (fun j _ _ => rfl) trivial hcov
         · -- wf of the stepping node's link
           rcases hkind with ⟨hk0, s, hs⟩ | ⟨hk0, hk1, hok⟩ | ⟨hk1, _⟩
           · subst hk0; subst hs
@@ -145,7 +145,7 @@ theorem GInv.step_up {input : List Val} {net net' : Net} (h : GInv input net) (i
                 rw [hf.hist]; simp [hal1, hil]
               rw [hh]
               have e1 : midF nd = midF (nd.step (.up (.req n))).1 := (step_midF nd _).1.symm
-              exact ⟨by rw [e1]; exact hst.specM, fun _ => hst⟩
+              exact ⟨by rw [e1]; exact hst.specM (h.par_node hn _).2, fun _ => hst⟩
             | cancel => have := h.cancel i (by rw [hupq]; simp); rw [hal1] at this; simp at this
           · have hh : hist net' i = hist net i := by rw [hf.hist]; simp [hal1]
             rw [hh]
@@ -156,8 +156,8 @@ theorem GInv.step_up {input : List Val} {net net' : Net} (h : GInv input net) (i
       · simp [ha] at hstep
 
 /-- node `i+1` handles the oldest unhandled message of link `i` -/
-theorem GInv.step_down {input : List Val} {net net' : Net} (h : GInv input net) (i : Nat)
-    (hstep : net.step (.down i) = some net') : GInv input net' := by
+theorem GInv.step_down {P : List Val → Prop} {input : List Val} {net net' : Net} (h : GInv P input net) (i : Nat)
+    (hstep : net.step (.down i) = some net') : GInv P input net' := by
   unfold Net.step at hstep
   cases hl : net.links[i]? with
   | none => simp [hl] at hstep
@@ -212,7 +212,7 @@ theorem GInv.step_down {input : List Val} {net net' : Net} (h : GInv input net) 
           intro j; simp only [dpos]; split
           · rename_i hj; subst hj; omega
           · exact h.posle j
-        apply h.of_frame hf hn ha hle ?_ hcov.1 hcov.2
+        apply h.of_frame hf hn ha hle ?_ trivial hcov
         · -- wf of the stepping node's own link
           rcases hkind with ⟨hk0, _⟩ | ⟨hk0, hk1, hok⟩ | ⟨hk1, _⟩
           · omega
@@ -238,7 +238,7 @@ theorem GInv.step_down {input : List Val} {net net' : Net} (h : GInv input net) 
               rw [hf.hist]; simp [hal1, hlen]
             rw [hh]
             have e1 : midF nd = midF (nd.step (.down d)).1 := (step_midF nd _).1.symm
-            exact ⟨by rw [e1]; exact hst.specM, fun _ => hst⟩
+            exact ⟨by rw [e1]; exact hst.specM (h.par_node hn _).2, fun _ => hst⟩
           · have hh : hist net' (i + 1) = hist net (i + 1) := by rw [hf.hist]; simp [hal1]
             rw [hh]
             refine ⟨hsp.extend [d], fun hal => ?_⟩
@@ -309,17 +309,17 @@ theorem semsOf_step {net net' : Net} (p : Pick) (h : net.step p = some net') : s
         · simp only [ha, Bool.not_true, Bool.false_eq_true, if_false, Option.some.injEq] at h
           rw [← h, semsOf_deliver]; rfl
         · simp [ha] at h
-  | result j =>
+  | result i q =>
     simp only [Net.step] at h
-    cases ht : net.tasks[j]? with
-    | none => simp [ht] at h
-    | some t =>
-      obtain ⟨i, q, v⟩ := t
-      simp only [ht] at h
-      by_cases ha : net.aliveAt i = true
-      · simp only [ha, Bool.not_true, Bool.false_eq_true, if_false, Option.some.injEq] at h
-        rw [← h, semsOf_deliver]; rfl
+    split at h
+    · rename_i o w k bad e st hn
+      by_cases ha : st.alive = true
+      · simp only [ha, Bool.not_true, Bool.false_eq_true, if_false] at h
+        split at h
+        · simp only [Option.some.injEq] at h; rw [← h, semsOf_deliver]
+        · simp at h
       · simp [ha] at h
+    · simp at h
 
 theorem semsOf_run (net : Net) (picks : List Pick) : semsOf (net.run picks) = semsOf net := by
   induction picks generalizing net with
@@ -330,23 +330,71 @@ theorem semsOf_run (net : Net) (picks : List Pick) : semsOf (net.run picks) = se
     | some n => rw [ih n, semsOf_step p hs]
     | none => exact ih net
 
-/-- no worker task is ever outstanding in a net of covered nodes -/
-theorem GInv.step_result {input : List Val} {net net' : Net} (h : GInv input net) (j : Nat)
-    (hstep : net.step (.result j) = some net') : False := by
-  unfold Net.step at hstep
-  rw [h.notasks] at hstep
-  simp at hstep
+/-- a worker of the parallel stage at node `i` replies -/
+theorem GInv.step_result {P : List Val → Prop} {input : List Val} {net net' : Net} (h : GInv P input net) (i q : Nat)
+    (hstep : net.step (.result i q) = some net') : GInv P input net' := by
+  simp only [Net.step] at hstep
+  split at hstep
+  · rename_i o w k bad e st hn
+    by_cases hsa : st.alive = true
+    · simp only [hsa, Bool.not_true, Bool.false_eq_true, if_false] at hstep
+      split at hstep
+      · rename_i t hfind
+        simp only [Option.some.injEq] at hstep
+        have htm : t ∈ st.outst := List.mem_of_find?_eq_some hfind
+        have htq : t.1 = q := by have := List.find?_some hfind; simpa using this
+        subst htq
+        have ha : net.aliveAt i = true := by simp [Net.aliveAt, hn, Node.alive, hsa]
+        have hsb : SameBut net net (pos net) := ⟨rfl, rfl, rfl, fun _ => rfl, fun _ => rfl, fun _ _ hx => hx⟩
+        have hf := frame_of_deliver (ev := .result t.1 (parFn k bad e t.2)) hsb hn
+        rw [hstep] at hf
+        have hkind := h.kind hn
+        have hmidk : 0 < i ∧ i + 1 < net.nodes.length := by
+          rcases hkind with ⟨_, s, hs⟩ | ⟨h0, h1, _⟩ | ⟨_, c, s, hs⟩
+          · cases hs
+          · exact ⟨h0, h1⟩
+          · cases hs
+        have hcov := covered_step (.pmap o w k bad e st) (.result t.1 (parFn k bad e t.2))
+          (Or.inl (h.mid i _ hmidk.1 hmidk.2 hn).1)
+        have hil : i < net.links.length := by have := h.len; omega
+        obtain ⟨_, hsp, hmi⟩ := h.mid i _ hmidk.1 hmidk.2 hn
+        have hnext : net'.aliveAt (i + 1) = net.aliveAt (i + 1) := by rw [hf.alive]; simp
+        apply h.of_frame hf hn ha h.posle (fun j _ _ => rfl) trivial hcov
+        · rw [hf.hist]
+          split
+          · rename_i hc
+            exact (MidInv.step_result t (hmi hc.2.1) hsa htm).wfOut
+          · exact h.wfh i
+        · intro hk0 s hs; cases hs
+        · intro hk0 hk1
+          by_cases hal1 : net.aliveAt (i + 1) = true
+          · have hst := MidInv.step_result t (hmi hal1) hsa htm
+            have hh : hist net' i = hist net i ++
+                ((Node.pmap o w k bad e st).step (.result t.1 (parFn k bad e t.2))).2.down := by
+              rw [hf.hist]; simp [hal1, hil]
+            rw [hh]
+            have e1 : midF (Node.pmap o w k bad e st) =
+                midF ((Node.pmap o w k bad e st).step (.result t.1 (parFn k bad e t.2))).1 := (step_midF _ _).1.symm
+            exact ⟨by rw [e1]; exact hst.specM (h.par_node hn _).2, fun _ => hst⟩
+          · have hh : hist net' i = hist net i := by rw [hf.hist]; simp [hal1]
+            rw [hh]
+            refine ⟨hsp, fun hal => ?_⟩
+            rw [hnext] at hal; exact absurd hal hal1
+        · intro hk1 c s hs; cases hs
+      · simp at hstep
+    · simp [hsa] at hstep
+  · simp at hstep
 
-theorem GInv.step {input : List Val} {net net' : Net} (h : GInv input net) (p : Pick)
-    (hstep : net.step p = some net') : GInv input net' := by
+theorem GInv.step {P : List Val → Prop} {input : List Val} {net net' : Net} (h : GInv P input net) (p : Pick)
+    (hstep : net.step p = some net') : GInv P input net' := by
   cases p with
   | down i => exact h.step_down i hstep
   | up i => exact h.step_up i hstep
-  | result j => exact (h.step_result j hstep).elim
+  | result i q => exact h.step_result i q hstep
 
 /-- the invariant holds after any list of scheduler picks -/
-theorem GInv.run {input : List Val} {net : Net} (h : GInv input net) (picks : List Pick) :
-    GInv input (net.run picks) := by
+theorem GInv.run {P : List Val → Prop} {input : List Val} {net : Net} (h : GInv P input net) (picks : List Pick) :
+    GInv P input (net.run picks) := by
   induction picks generalizing net with
   | nil => exact h
   | cons p ps ih =>
